@@ -1321,32 +1321,16 @@ func (c *compiler) evalIndexCallee(rv reflect.Value, node *ast.IndexExpression) 
 		c.ctx.Set(k, v)
 	}
 
-	//The key here is needed to set the object in ctx for later evaluation
-	//For example, if this is a nested object person.Name[0]
-	//then we can set the value of Name[0] to person.Name
-	//As the evalIdent will look for that object by person.Name
-	//If key doesn't contain "." this means we got person[0].Name[0]
-	//If key does contain "." then indexed field that needs to be accessed will be set in Node.left and Node.Callee
-	key := node.Left.String()
-	if strings.Contains(key, ".") {
-		ggg := strings.Split(key, ".")
-		callee := node.Callee.String()
-
-		if !strings.Contains(callee, key) {
-			for {
-				if len(ggg) >= 2 {
-					ggg = ggg[1:]
-				} else {
-					key = ggg[0]
-					break
-				}
-
-				if strings.Contains(callee, strings.Join(ggg, ".")) {
-					key = strings.Join(ggg, ".")
-					break
-				}
-			}
-		}
+	// The indexed value is bound in the new scope under the name by which the
+	// expression after the index refers to it: the parser put a placeholder
+	// identifier holding that name (the printed form of what stands before the
+	// index, "person.Names" for person.Names[0].First) at the root of
+	// node.Callee. (The name used to be guessed here by searching the printed
+	// callee for a suffix of the printed left side, which picked "Kids.Kids" for
+	// n.Kids[0].Kids[1].Kids[0] where the placeholder says "Kids".)
+	key, ok := calleePlaceholder(node.Callee)
+	if !ok {
+		key = node.Left.String()
 	}
 
 	c.ctx.Set(key, rv.Interface())
@@ -1357,6 +1341,35 @@ func (c *compiler) evalIndexCallee(rv reflect.Value, node *ast.IndexExpression) 
 	}
 
 	return vvs, nil
+}
+
+// calleePlaceholder returns the name of the placeholder identifier that
+// parser.assignCallee put at the root of the expression following an index
+// or a call.
+func calleePlaceholder(e ast.Expression) (string, bool) {
+	root := func(id *ast.Identifier) (string, bool) {
+		if id == nil {
+			return "", false
+		}
+		for id.Callee != nil {
+			id = id.Callee
+		}
+		return id.Value, true
+	}
+
+	switch t := e.(type) {
+	case *ast.Identifier:
+		return root(t)
+	case *ast.IndexExpression:
+		if id, ok := t.Left.(*ast.Identifier); ok {
+			return root(id)
+		}
+	case *ast.CallExpression:
+		if id, ok := t.Callee.(*ast.Identifier); ok {
+			return root(id)
+		}
+	}
+	return "", false
 }
 
 func unsafeGetBytes(s string) []byte {
